@@ -1,11 +1,12 @@
 /- registry of line-protocol handlers; `Driver/Main.lean` only loops over stdin -/
 import Optyx.Drive.Core
 import Optyx.Drive.LP
+import Optyx.Drive.Scipy
 
 namespace Optyx.Drive
 
 def handlers : List (String → List Sexp → Option String) :=
-  [handleCore, handleLP]
+  [handleCore, handleLP, handleScipy]
 
 def dispatch (line : String) : String :=
   match Sexp.parseLine line with
